@@ -764,3 +764,42 @@ def in_loop(node, func):
             return True
         p = parent(p)
     return False
+
+
+def private_callers(module):
+    """name of a private function/method -> set of qualnames of the functions of `module` that
+    call it (as `self.NAME(...)`, `cls.NAME(...)`, `Class.NAME(...)` or `NAME(...)`)."""
+    priv = {f.name for f in module.functions.values()
+            if f.name.startswith('_') and not f.name.startswith('__')}
+    out = {n: set() for n in priv}
+    for q, f in module.functions.items():
+        for c in body_nodes(f):
+            if not isinstance(c, ast.Call):
+                continue
+            nm = None
+            if isinstance(c.func, ast.Attribute):
+                nm = c.func.attr
+            elif isinstance(c.func, ast.Name):
+                nm = c.func.id
+            if nm in out and f.name != nm:
+                out[nm].add(q)
+    return out
+
+
+def phase_helpers(module, seeds):
+    """Private helpers that only ever run as part of the functions named in `seeds` (e.g. the
+    constructors): every call site in the module lies in a seed function or in another such
+    helper. Derived from the current source, so a helper extracted from a constructor tomorrow
+    is recognised without a table entry."""
+    callers = private_callers(module)
+    res = set()
+    changed = True
+    while changed:
+        changed = False
+        for nm, qs in callers.items():
+            if nm in res or not qs:
+                continue
+            if all(q.rsplit('.', 1)[-1] in seeds or q.rsplit('.', 1)[-1] in res for q in qs):
+                res.add(nm)
+                changed = True
+    return res
